@@ -27,7 +27,13 @@ ASSUMPTIONS = ["theorems are about exact real arithmetic; binary64 rounding is c
                "correspondence check on sampled inputs",
                "sample is modelled as a function of the numbers drawn from the generator; 'frequency proportional to "
                "weight' is the statement that face i is chosen on an interval of length w_i/T of the face draw",
-               "the model of sample includes fixes/C15-sample-zero-weight.diff (searchsorted side='right')"]
+               "the model of sample uses searchsorted side='right' (fixes/C15-sample-zero-weight.diff, commit f5126ba in /repo)",
+               "barycentric weights of a ZERO-AREA triangle (outside the property's domain): float arrays give (1,0,0) through "
+               "the epsilon guard; int64 arrays lose the guard (s[s == 0] = np.spacing(1) stores 0) and return a NaN row. Both "
+               "are modelled (bary / bary_intarray), generated and compared; C15_bary_sum_one is about the float model, "
+               "C15_bary_integer_arrays states the integer behaviour",
+               "area-weighted sample cases whose face draw lies within 1e-8 T of a cumulative weight are not judged for that "
+               "draw; such cases are counted under the kind sample_area_some_draws_undecided"]
 
 IMPORTS = [("PW.model", "M_tri")]
 
@@ -289,9 +295,10 @@ def gen_cases(rng, n, tier):
             k = rng.randint(1, 4)
             ts, ps = [], []
             for _ in range(k):
-                # (a zero-area triangle in an integer array is outside the property's domain and behaves differently:
-                # the epsilon written into the integer `s` truncates to 0)
-                t = _tri(rng, scale, degenerate=(rng.random() < 0.08) and not is_int)
+                # (a zero-area triangle is outside the property's domain for barycentric weights; it is generated all the
+                # same: float arrays give (1,0,0) through the epsilon guard, int64 arrays lose the guard and give a NaN
+                # row -- modelled by bary_intarray)
+                t = _tri(rng, scale, degenerate=rng.random() < (0.25 if is_int else 0.08))
                 ts.append(t)
                 ps.append(_coplanar_point(rng, t) if rng.random() < 0.5 else [x * scale for x in grid_vec(rng)])
             cases.append({"kind": "bary", "tris": ts, "points": ps})
@@ -344,7 +351,9 @@ def gen_cases(rng, n, tier):
             m = rng.randint(1, 4)
             us = [rng.choice([0.0, rng.randint(0, 15) / 16]) for _ in range(m)]
             abs_ = [[rng.randint(0, 8) / 8, rng.randint(0, 8) / 8] for _ in range(m)]
-            cases.append({"kind": "sample_area", "exact": exact, "tris": ts, "weights": None, "us": us, "abs": abs_})
+            dec = [True] * m if exact else _decided_draws(ts, us)
+            cases.append({"kind": "sample_area" if all(dec) else "sample_area_some_draws_undecided", "exact": exact, "dec": dec,
+                          "tris": ts, "weights": None, "us": us, "abs": abs_})
         elif r < 0.89:
             ts = [_tri(rng, scale, degenerate=True) for _ in range(rng.randint(1, 2))]
             cases.append({"kind": "sample_all_degenerate", "exact": True, "tris": ts, "weights": None, "us": [0.5],
@@ -375,7 +384,22 @@ def gen_cases(rng, n, tier):
     return cases
 
 
-INT_KINDS = ("normals", "bary", "contains", "same_side", "sample_weights", "sample_area")
+INT_KINDS = ("normals", "bary", "contains", "same_side", "sample_weights", "sample_area", "sample_area_some_draws_undecided")
+SAMPLE_FIXED = ("sample_weights", "sample_area", "sample_area_some_draws_undecided", "sample_all_degenerate")
+# theorems that only restate the shape of the model (reported separately by the driver)
+DEFINITIONAL = ["C15_normal_is_cross", "C15_stacked_is_map_single", "C15_bary_pairs_is_map_single",
+                "C15_contains_is_three_same_side"]
+
+
+def _decided_draws(ts, us):
+    """per draw: is u*T at least 1e-8 T away from every cumulative area weight?  (areas in binary64 exactly as NumPy
+    computes them; a draw nearer than that to a threshold is not judged by the correspondence and is counted in the
+    evidence through the case kind `sample_area_some_draws_undecided`)"""
+    t = np.array(ts, dtype=np.float64).reshape(-1, 3, 3)
+    n = np.cross(t[:, 1] - t[:, 0], t[:, 2] - t[:, 0])
+    cum = np.cumsum(0.5 * np.sqrt((n * n).sum(axis=1)))
+    T = float(cum[-1])
+    return [bool(T > 0 and np.all(np.abs(u * T - cum) > 1e-8 * T)) for u in us]
 
 
 def _arr(x, c, shape):
@@ -419,8 +443,9 @@ def run_impl(c):
         if kind == "bary":
             ts, ps = _arr(c["tris"], c, (-1, 3, 3)), _arr(c["points"], c, (-1, 3))
             before = (ts.copy(), ps.copy())
-            w = barycentric_coordinates_of_points(ts, ps)
-            return {"w": w.tolist(), "args_unchanged": bool(np.array_equal(before[0], ts) and np.array_equal(before[1], ps))}
+            with np.errstate(all="ignore"):
+                w = barycentric_coordinates_of_points(ts, ps)
+            return {"w": w.tolist(), "int_dtype": bool(ts.dtype.kind == "i"), "args_unchanged": bool(np.array_equal(before[0], ts) and np.array_equal(before[1], ps))}
         if kind in ("contains", "same_side"):
             f = tri_contains_coplanar_point if kind == "contains" else coplanar_points_are_on_same_side_of_line
             rows = _arr(c["rows"], c, (-1, 4, 3))
@@ -429,7 +454,7 @@ def run_impl(c):
                 return {"res": one, "single": one}
             st = f(rows[:, 0], rows[:, 1], rows[:, 2], rows[:, 3])
             return {"res": [bool(x) for x in st], "single": one}
-        if kind in ("sample_weights", "sample_area", "sample_all_degenerate"):
+        if kind in SAMPLE_FIXED:
             ts = _arr(c["tris"], c, (-1, 3, 3))
             ws = None if c["weights"] is None else np.array(c["weights"], dtype=np.float64)
             m = len(c["us"])
@@ -498,18 +523,20 @@ BAD = "CContains [] [true]"  # a case that fails in Coq: used when the implement
 def coq_case(c, o):
     kind = c["kind"]
     raised = isinstance(o, dict) and "raise" in o
-    if kind in ("sample_weights", "sample_area", "sample_all_degenerate"):
+    if kind in SAMPLE_FIXED:
         ws = "None" if c["weights"] is None else "(Some %s)" % coq_list(q(w) for w in c["weights"])
         obs = ("(Raise %s)" % o["raise"]) if raised else "(Ok (%s, %s))" % (_vecs(o["points"]), coq_list(coq_nat(i) for i in o["faces"]))
+        dec = c.get("dec") or [True] * len(c["us"])
         return "CSample %s %s %s %s %s %s" % (
-            coq_bool(c["exact"]), coq_list(_tri_q(t) for t in c["tris"]), ws, coq_list(q(u) for u in c["us"]),
+            coq_list(coq_bool(d) for d in dec), coq_list(_tri_q(t) for t in c["tris"]), ws, coq_list(q(u) for u in c["us"]),
             coq_list("(%s, %s)" % (q(a), q(b)) for a, b in c["abs"]), obs)
     if raised:
         return BAD
     if kind == "normals":
         return "CNormals %s %s %s %s" % (coq_list(_tri_q(t) for t in c["tris"]), _vecs(o["raw"]), _vecs(o["unit"]), flv(o["area"]))
     if kind == "bary":
-        return "CBary %s %s %s" % (coq_list(_tri_q(t) for t in c["tris"]), coq_list(qv(p) for p in c["points"]), _vecs(o["w"]))
+        return "CBary %s %s %s %s" % (coq_bool(bool(o.get("int_dtype"))), coq_list(_tri_q(t) for t in c["tris"]),
+                                      coq_list(qv(p) for p in c["points"]), _vecs(o["w"]))
     if kind in ("contains", "same_side"):
         rows = coq_list("(Row4 %s %s %s %s)" % tuple(qv(v) for v in r) for r in c["rows"])
         return "%s %s %s" % ("CContains" if kind == "contains" else "CSameSide", rows, coq_list(coq_bool(b) for b in o["res"]))
@@ -622,6 +649,8 @@ def _bary_oracle(c, o):
         return "wrong number of weight rows"
     for i, (t, p) in enumerate(zip(c["tris"], c["points"])):
         t, p = [_F(v) for v in t], _F(p)
+        if _area_sq(t) == 0:
+            continue  # zero-area triangle: outside the property's domain for barycentric weights (judged by the model only)
         if not _finite(o["w"][i]):
             return "weights of row %d are not finite" % i
         w = _F(o["w"][i])
@@ -792,7 +821,7 @@ def oracle(c, o):
         return _bary_oracle(c, o)
     if kind in ("contains", "same_side"):
         return _contains_oracle(c, o)
-    if kind in ("sample_weights", "sample_area"):
+    if kind in ("sample_weights", "sample_area", "sample_area_some_draws_undecided"):
         return _sample_fixed_oracle(c, o)
     if kind == "sample_all_degenerate":
         return None
